@@ -250,7 +250,7 @@ def p4(prog, rep):
         b = prog.main_body(BSC + fn)
         assigns = [(i, line) for i, j, p, rv, line in b.assigns()
                    if p.endswith("." + field) and p.split("|")[0] in ("1",)]
-        cm = rel(b, "Le", r".", re.escape(mx))
+        cm = rel(b, "Le", r".", re.escape(mx), pure=False)
         ok = bool(assigns) and bool(cm)
         if ok:
             ok = all(b.must_pass_edges(set(cm[0].true_edges), i) for i, _ in assigns)
